@@ -275,6 +275,59 @@ REVERTS = [
      """        if isinstance(arg, (tuple, list, dict)):
 """, """        if isinstance(arg, (tuple, list)):
 """),
+    # source-level mutants of the Cython file (they cannot be compiled here; the checks read the source)
+    ('pyx-rle-run-not-clamped-to-the-output', ['C11', 'C12', 'C03'], 'fastparquet/cencoding.pyx',
+     """    if count > vals_left:
+        count = vals_left
+""", ""),
+    ('pyx-bitpacked1-not-clamped-to-the-output', ['C11', 'C12'], 'fastparquet/cencoding.pyx',
+     """    if count > o.nbytes - o.loc:
+        count = o.nbytes - o.loc
+""", ""),
+    ('pyx-write_byte-guard-off-by-one', ['C12'], 'fastparquet/cencoding.pyx',
+     """        if self.loc >= self.nbytes:
+            # ignore attempt to write past end of buffer
+""", """        if self.loc > self.nbytes:
+            # ignore attempt to write past end of buffer
+"""),
+    ('pyx-write_int-guard-too-small', ['C12'], 'fastparquet/cencoding.pyx',
+     """    cpdef void write_int(self, int32_t i):
+        if self.nbytes - self.loc < 4:
+""", """    cpdef void write_int(self, int32_t i):
+        if self.nbytes - self.loc < 2:
+"""),
+    ('pyx-write_long-guard-too-small', ['C12'], 'fastparquet/cencoding.pyx',
+     """    cdef void write_long(self, int64_t i):
+        if self.nbytes - self.loc < 8:
+""", """    cdef void write_long(self, int64_t i):
+        if self.nbytes - self.loc < 4:
+"""),
+    ('pyx-hybrid-loop-ignores-output-capacity', ['C11'], 'fastparquet/cencoding.pyx',
+     """    while io_obj.loc - start < length and o.loc < o.nbytes:
+""", """    while io_obj.loc - start < length:
+"""),
+    ('pyx-bitpacked-end-pointer-one-item-late', ['C11', 'C12'], 'fastparquet/cencoding.pyx',
+     """    endptr = (o.nbytes - o.loc) + outptr - itemsize
+""", """    endptr = (o.nbytes - o.loc) + outptr
+"""),
+    ('pyx-varint-encoder-8-bit-groups', ['C11'], 'fastparquet/cencoding.pyx',
+     """        o.write_byte((x & 0x7F) | 0x80)
+        x >>= 7
+""", """        o.write_byte((x & 0x7F) | 0x80)
+        x >>= 8
+"""),
+    ('pyx-varint-decoder-8-bit-groups', ['C11'], 'fastparquet/cencoding.pyx',
+     """            break
+        shift += 7
+""", """            break
+        shift += 8
+"""),
+    ('pyx-zigzag-decoder-loses-the-sign', ['C11', 'C10'], 'fastparquet/cencoding.pyx',
+     """cdef int64_t zigzag_long(uint64_t n):
+    return (n >> 1) ^ -(n & 1)
+""", """cdef int64_t zigzag_long(uint64_t n):
+    return (n >> 1) ^ (n & 1)
+"""),
     ('revert-F68-strings-into-a-categorical-column', ['C07', 'C18', 'C19'], 'fastparquet/api.py',
      """                if col in data.columns and not isinstance(
                         data[col].dtype, pd.CategoricalDtype):
